@@ -28,9 +28,36 @@ fn scale_op(op: &Op, c: f64, d: f64, scale_volume: bool) -> Op {
     }
 }
 
-/// extra = [c, d, mode]  mode 0: scale by c; mode 1: shift by d; mode 2: Maximum(x) = −Minimum(−x)
+/// the scaled stream is the stream: x·c is finite, non-zero (unless x is) and scales back to x exactly
+fn scales_exactly(x: f64, c: f64) -> bool {
+    let y = x * c;
+    y.is_finite() && (y != 0.0 || x == 0.0) && y / c == x
+}
+
+/// factors outside the documented 2^±40 band ("arbitrary positive factors"): the claim is about f(c·x), so such a
+/// case is judged only if c·x IS the scaled stream — every scaled price exactly representable (no overflow, no bits
+/// lost in the subnormal range).  Always true inside the band.
+pub fn scaled_stream_exact(case: &Case) -> bool {
+    let c = case.extra[0];
+    if c.abs().log2().abs() <= 40.0 {
+        return true;
+    }
+    case.ops.iter().all(|op| match op {
+        Op::Next(x) => scales_exactly(*x, c),
+        Op::Bar(b) => scales_exactly(b.o, c) && scales_exactly(b.h, c) && scales_exactly(b.l, c) && scales_exactly(b.c, c),
+        _ => true,
+    })
+}
+
+/// extra = [c, d, mode, fresh]  mode 0: scale by c; mode 1: shift by d; mode 2: Maximum(x) = −Minimum(−x);
+/// fresh (optional, default 0) = 1: at an Op::Reset the instance under test is reset but its twin is REPLACED by a
+/// newly constructed one (a recycled instance must be covariant with a fresh one), 0: both are reset
 pub fn check(case: &Case, rec: &mut Rec) -> Option<Failure> {
     let (c, d, mode) = (case.extra[0], case.extra[1], case.extra[2] as i32);
+    let fresh = case.extra.get(3).copied().unwrap_or(0.0) == 1.0;
+    if mode == 0 && !scaled_stream_exact(case) {
+        return None;
+    }
     let a = match mk(case, rec) {
         Ok(i) => i,
         Err(f) => return Some(f),
@@ -39,6 +66,16 @@ pub fn check(case: &Case, rec: &mut Rec) -> Option<Failure> {
     if mode == 2 {
         let mut mn = Ind::create("Minimum", &case.ps, &[]).unwrap().unwrap();
         for (i, op) in case.ops.iter().enumerate() {
+            if *op == Op::Reset {
+                if !rec.reset(a) {
+                    return fail(case, "panic", format!("reset panicked at op {}", i));
+                }
+                if fresh {
+                    mn = Ind::create("Minimum", &case.ps, &[]).unwrap().unwrap();
+                } else {
+                    mn.reset();
+                }
+            }
             if let Op::Next(x) = op {
                 let mx = rec.next(a, *x)?;
                 let m = mn.next(-*x);
@@ -72,6 +109,21 @@ pub fn check(case: &Case, rec: &mut Rec) -> Option<Failure> {
                 let sb = scale_op(op, c, d, false);
                 let o2 = if let Op::Bar(sb) = &sb { twin.next_bar(sb) } else { vec![] };
                 (o1, o2, cref.step(None, Some(b)))
+            }
+            Op::Reset => {
+                // both runs restart: the instance under test is reset; its twin is reset too, or replaced by a new one
+                if !rec.reset(a) {
+                    return fail(case, "panic", format!("reset panicked at op {}", i));
+                }
+                if fresh {
+                    twin = Ind::create(&case.ind, &case.ps, &case.ms).unwrap().unwrap();
+                } else {
+                    twin.reset();
+                }
+                cref = super::c03::Ref::new(name, &case.ps);
+                big = 0.0;
+                big2 = 0.0;
+                continue;
             }
             _ => continue,
         };
@@ -175,8 +227,91 @@ pub fn generate(r: &mut Runner) {
         } else {
             cse.ops = gen::valid_bars(&mut r.rng, &xs).into_iter().map(Op::Bar).collect();
         }
+        add_resets(r, &mut cse, 0.4);
         r.run(cse, len > 2);
+    }
+    // EXTREME factors ("arbitrary positive factors", far outside 2^±40) on streams that live on a coarse dyadic grid
+    let cases = if r.tier == Tier::Quick { 420 } else { 12000 };
+    for i in 0..cases {
+        let name = names[i % names.len()];
+        let (ps, ms) = crate::diff::params_for(&mut r.rng, name, 64);
+        let len = r.rng.range(1, maxlen.min(400));
+        let bars = !(ind::has_next_name(name) && r.rng.chance(0.5));
+        let ops = grid_ops(r, len, bars);
+        let ks = extreme_exponents(name);
+        let k = *r.rng.pick(ks);
+        // mostly pure powers of two; sometimes 3·2^k, 5·2^k (still exact on a grid with few mantissa bits)
+        let m = if r.rng.chance(0.8) { 1.0 } else { *r.rng.pick(&[3.0, 5.0, 0.75]) };
+        let c = m * (2.0f64).powi(k / 2) * (2.0f64).powi(k - k / 2);
+        let mut cse = Case::new("C14", "scale-extreme", name, &ps, &ms);
+        cse.extra = vec![c, 0.0, 0.0];
+        cse.ops = ops;
+        add_resets(r, &mut cse, 0.25);
+        let judged = scaled_stream_exact(&cse);
+        r.count(if judged { "extreme:judged" } else { "extreme:not-judged(scaled stream inexact)" });
+        r.run(cse, len > 2 && judged);
     }
 }
 
-pub const RULE: &str = "21 indicators (RSI excluded as the property states) × periods to 64 × positive price streams / valid bars in 9 regimes; two instances fed x and c·x (c = 2^k, k in −40..=40, in two thirds of the scale cases; c in {3, 0.1, 7.25, 1e3, 0.37} otherwise) or x and x + d (d > 0) step by step (a third of the shift cases: nearly flat streams B + r·2^-20 shifted by d >> B; outputs that must stay unchanged are then compared within 2·tau(t)·M); price-valued outputs must scale / shift, dimensionless ones stay equal: 1e-12 relative for powers of two, 1e-9 otherwise, ratios judged when their condition number (from the C03 reference) is <= 1e6; Maximum(x) = −Minimum(−x) exactly. Volume is not a price and is left unscaled. Non-trivial = more than 2 inputs.";
+/// with probability `p` insert one or two resets at random interior positions; half of those cases re-create the
+/// twin instead of resetting it (extra[3] = 1)
+fn add_resets(r: &mut Runner, cse: &mut Case, p: f64) {
+    if cse.ops.len() < 2 || !r.rng.chance(p) {
+        return;
+    }
+    let k = r.rng.range(1, 2);
+    for _ in 0..k {
+        let pos = r.rng.range(1, cse.ops.len() - 1);
+        cse.ops.insert(pos, Op::Reset);
+    }
+    let fresh = r.rng.chance(0.5);
+    cse.extra.push(if fresh { 1.0 } else { 0.0 });
+    cse.kind = format!("{}+{}", cse.kind, if fresh { "reset-vs-new" } else { "reset" });
+}
+
+/// exponents k of the extreme factors 2^k explored per indicator — see RULE for the three classes
+fn extreme_exponents(name: &str) -> &'static [i32] {
+    match name {
+        // only exact operations on the grid (compare, add, subtract) and quotients of exactly scaled operands
+        "Minimum" | "Maximum" | "FastStochastic" | "SlowStochastic" | "RateOfChange" | "EfficiencyRatio" | "TrueRange" | "OnBalanceVolume" => &[-1060, -1040, -1030, -1022, -1012, -1000, -960, -700, -300, -100, -41, 41, 100, 300, 700, 900, 960, 1010],
+        // squares of prices: twice the exponent must stay in range
+        "StandardDeviation" | "BollingerBands" => &[-480, -300, -100, -41, 41, 100, 300, 480],
+        // rounded products / means of prices: every intermediate must stay a NORMAL number
+        _ => &[-900, -700, -300, -100, -41, 41, 100, 300, 700, 900],
+    }
+}
+
+/// a stream on a coarse dyadic grid: prices B + r·2^-j (r a small integer), as scalars or as consistent bars whose
+/// four prices all lie on the grid (volume a small integer)
+fn grid_ops(r: &mut Runner, len: usize, bars: bool) -> Vec<Op> {
+    let (b0, j) = *r.rng.pick(&[(100.0f64, 2), (100.0, 13), (96.0, 0), (1.0, 10), (1000.0, 3), (25.5, 4), (3.0, 1), (100.0, 0)]);
+    let tick = (2.0f64).powi(-j);
+    let room = (b0 / tick / 4.0).floor().max(1.0) as usize;
+    let amp = (*r.rng.pick(&[1usize, 3, 8, 100, 1000])).min(room);
+    let walk = r.rng.chance(0.5);
+    let mut pos: i64 = 0;
+    let mut ops = Vec::with_capacity(len);
+    let mut prev = b0;
+    for _ in 0..len {
+        if walk {
+            pos = (pos + r.rng.range(0, 4) as i64 - 2).clamp(-(amp as i64), amp as i64);
+        } else if !r.rng.chance(0.15) {
+            pos = r.rng.range(0, 2 * amp) as i64 - amp as i64;
+        }
+        let x = b0 + pos as f64 * tick;
+        if bars {
+            let o = if r.rng.chance(0.5) { prev } else { x };
+            let up = r.rng.below(4) as f64 * tick;
+            let dn = (r.rng.below(4) as f64 * tick).min(o.min(x) - tick);
+            let flat = r.rng.chance(0.1);
+            let (o, h, l) = if flat { (x, x, x) } else { (o, o.max(x) + up, o.min(x) - dn) };
+            ops.push(Op::Bar(B { o, h, l, c: x, v: r.rng.below(1000) as f64 }));
+        } else {
+            ops.push(Op::Next(x));
+        }
+        prev = x;
+    }
+    ops
+}
+
+pub const RULE: &str = "21 indicators (RSI excluded as the property states) × periods to 64 × positive price streams / valid bars in 9 regimes; two instances fed x and c·x (c = 2^k, k in −40..=40, in two thirds of the scale cases; c in {3, 0.1, 7.25, 1e3, 0.37} otherwise) or x and x + d (d > 0) step by step (a third of the shift cases: nearly flat streams B + r·2^-20 shifted by d >> B; outputs that must stay unchanged are then compared within 2·tau(t)·M); price-valued outputs must scale / shift, dimensionless ones stay equal: 1e-12 relative for powers of two, 1e-9 otherwise, ratios judged when their condition number (from the C03 reference) is <= 1e6; Maximum(x) = −Minimum(−x) exactly. RESETS: 40% of these cases (25% of the extreme ones) carry one or two reset() calls at random interior positions of the op sequence; the instance under test is reset, and its twin is either reset at the same point or (half of them, kind …+reset-vs-new) REPLACED by a newly constructed instance, so a recycled instance must be covariant with a fresh one; magnitudes and conditioning restart at the reset. EXTREME FACTORS (kind scale-extreme, 420 quick / 12000 thorough): streams on a coarse dyadic grid — prices B + r·2^-j with (B, j) in {(100,2),(100,13),(96,0),(1,10),(1000,3),(25.5,4),(3,1),(100,0)}, r an integer walk or i.i.d. draw of amplitude 1..1000 ticks, as scalars or as consistent bars with all four prices on the grid (10% flat bars, integer volume) — scaled by c = m·2^k, m = 1 (80%) or 3, 5, 0.75, judged only if every scaled price is exactly representable (x·c finite, non-zero, (x·c)/c = x; counted as extreme:judged / not-judged), with the same tolerances as above; k per class, each verified on the unchanged crate: (A) Minimum, Maximum, FastStochastic, SlowStochastic, RateOfChange, EfficiencyRatio, TrueRange, OBV use only comparisons, exact sums/differences of grid values and quotients of exactly scaled operands, so scaling is bit-exact down into the subnormals and up to overflow: k in {−1060,−1040,−1030,−1022,−1012,−1000,−960,−700,−300,−100,−41,41,100,300,700,900,960,1010}; (B) SMA, EMA, WMA, MAD, ATR, MACD, PPO, CCI, MFI, Keltner, Chandelier round products/means of prices, which is covariant only while every intermediate is a normal number (measured: first failures at k <= −1000 and k >= 1010): k in {±41,±100,±300,±700,±900}; (C) StandardDeviation, BollingerBands square prices (overflow from k ~ 500, squares flush to zero below k ~ −500): k in {±41,±100,±300,±480}. Volume is not a price and is left unscaled. Non-trivial = more than 2 inputs (and, for extreme factors, judged).";
